@@ -38,7 +38,7 @@ type sharedFixtures struct {
 
 var fx *sharedFixtures
 
-const concKinds = 16
+const concKinds = 17
 
 // the two messages of operation kind 15: the first cannot be encoded (its SECOND payload fails, after the first was
 // already written), the second is an ordinary message
@@ -61,6 +61,25 @@ func concOp(r0 *Rng, shared []byte) string {
 	r := r0.Fork() // every operation draws exactly twice from its goroutine's generator, so the checker can re-derive it
 	return run(func() string {
 		switch kind {
+		case 16: // decoding EAP-AKA' packets with unassigned / malformed attributes: the error paths (which format values for messages)
+			var sb strings.Builder
+			for k := 0; k < 4; k++ {
+				pkt := []byte{1, byte(r.Intn(256)), 0, 0, 50, 1, 0, 0}
+				for a := r.Range(1, 3); a > 0; a-- {
+					ty := byte(r.Range(30, 255))
+					switch r.Intn(3) {
+					case 0:
+						pkt = append(pkt, ty, 0) // length 0
+					case 1:
+						pkt = append(pkt, ty, 3, 0, 0, 1, 2, 3, 4) // truncated: announces 12 octets
+					default:
+						pkt = append(pkt, ty, 2, 0, 0, 9, 9, 9, 9)
+					}
+				}
+				pkt[2], pkt[3] = byte(len(pkt)>>8), byte(len(pkt))
+				sb.WriteString(implEapUnmarshal(pkt))
+			}
+			return "eap-malformed:" + sb.String()
 		case 15: // an encoding that fails half-way, then an ordinary one (compared with the model afterwards)
 			bad, good := failingThenValid(r)
 			return "encode2:" + implEncode(bad) + implEncode(good)
@@ -244,14 +263,6 @@ func runC18(c *Ctx) error {
 		for i := range seeds {
 			seeds[i] = rng.U64()
 		}
-		// sequential prediction
-		want := make([][]string, n)
-		for g := 0; g < n; g++ {
-			gr := NewRng(seeds[g])
-			for s := 0; s < steps; s++ {
-				want[g] = append(want[g], concOp(gr, shared))
-			}
-		}
 		// concurrent run
 		got := make([][]string, n)
 		var wg sync.WaitGroup
@@ -272,6 +283,14 @@ func runC18(c *Ctx) error {
 		}
 		close(start)
 		wg.Wait()
+		// sequential prediction, computed AFTER the concurrent run (a lazily filled shared table would otherwise be populated here first)
+		want := make([][]string, n)
+		for g := 0; g < n; g++ {
+			gr := NewRng(seeds[g])
+			for s := 0; s < steps; s++ {
+				want[g] = append(want[g], concOp(gr, shared))
+			}
+		}
 		for g := 0; g < n; g++ {
 			for s := 0; s < steps; s++ {
 				cs := fmt.Sprintf("(concurrent round=%d goroutines=%d gomaxprocs=%d goroutine=%d step=%d seed=%d)", round, n, procs, g, s, seeds[g])
